@@ -159,6 +159,10 @@ func VerifC13_Sessions(h *zz.H) {
 	h.Assert(m.Add("t", tgt, &gpb.SubscribeRequest{}) != nil, "C13: adding a duplicate target is refused")
 	h.Assert(m.Remove("other") != nil, "C13: removing an unknown target is refused")
 	h.Assert(m.Reconnect("other") != nil, "C13: reconnecting an unknown target is refused")
+	// a refused Add (no address to dial) leaves the name unknown
+	h.Assert(m.Add("noaddr", &tpb.Target{}, &gpb.SubscribeRequest{}) != nil, "C13: adding a target without addresses is refused")
+	h.Assert(m.Reconnect("noaddr") != nil, "C13: a target whose Add was refused is unknown (Reconnect)")
+	h.Assert(m.Remove("noaddr") != nil, "C13: a target whose Add was refused is unknown (Remove)")
 	if h.Range("reconnect", 0, 1) == 1 {
 		m.Reconnect("t")
 	}
